@@ -32,8 +32,12 @@ func (c LCase) endShape() (first, answered int) {
 	if first < 0 {
 		first = 0
 	}
-	if first > len(c.Burst) {
-		first = len(c.Burst)
+	// StartSending queues the handshake messages of the options by itself: the application cannot pause before
+	if first < c.handshake() {
+		first = c.handshake()
+	}
+	if first > c.total() {
+		first = c.total()
 	}
 	if answered < 0 {
 		answered = 0
@@ -70,14 +74,15 @@ func (r *lrunner) runEnd(cs LCase) (out Outcome, problem string) {
 			problem = fmt.Sprintf(format, a...)
 		}
 	}
-	n := len(cs.Burst)
+	n := cs.total() // handshake messages included: First and K count them
+	hs := cs.handshake()
 	first, answered := cs.endShape()
 	further := n - first
 	unanswered := first - answered
 	what := fmt.Sprintf("the server ended the RPC with status OK after %d of %d requests were answered, the sender idle; %d further request(s) queued afterwards", answered, first, further)
 
 	p := newProbe()
-	echo := &echoCfg{failAfter: -1, end: true, endAfter: first, answer: answered, endGate: make(chan struct{})}
+	echo := &echoCfg{failAfter: -1, end: true, endAfter: first, answer: answered, endGate: make(chan struct{}), fib: cs.fib()}
 	gateOpen := false
 	openGate := func() {
 		if !gateOpen {
@@ -87,7 +92,7 @@ func (r *lrunner) runEnd(cs LCase) (out Outcome, problem string) {
 	}
 	defer openGate()
 	markOldGoroutines()
-	c, err := client.New()
+	c, err := client.New(cs.clientOpts()...)
 	if err != nil {
 		return out, "client.New: " + err.Error()
 	}
@@ -105,8 +110,6 @@ func (r *lrunner) runEnd(cs LCase) (out Outcome, problem string) {
 	if h == nil {
 		return out, "server did not see the Modify RPC"
 	}
-	c.StartSending()
-
 	hang := func(format string, a ...any) (Outcome, string) {
 		d, _ := clientGoroutines()
 		note("HANG: "+format+" ("+what+")\n%s", append(a, d)...)
@@ -121,10 +124,12 @@ func (r *lrunner) runEnd(cs LCase) (out Outcome, problem string) {
 		return out, problem
 	}
 
-	// the application queues the first part of the burst
+	// the application: StartSending (with the handshake messages of the options), then the first part of the burst
 	var completed atomic.Int64
 	if !timed(shortWatchdog, func() {
-		for _, id := range cs.Burst[:first] {
+		c.StartSending()
+		completed.Add(int64(hs))
+		for _, id := range cs.Burst[:first-hs] {
 			c.Q(req(id))
 			completed.Add(1)
 		}
@@ -194,7 +199,7 @@ func (r *lrunner) runEnd(cs LCase) (out Outcome, problem string) {
 	// the application queues the rest
 	completed.Store(0)
 	if !timed(shortWatchdog, func() {
-		for _, id := range cs.Burst[first:] {
+		for _, id := range cs.Burst[first-hs:] {
 			c.Q(req(id))
 			completed.Add(1)
 		}
@@ -252,7 +257,7 @@ func (r *lrunner) runEnd(cs LCase) (out Outcome, problem string) {
 			note("HANG: Reset did not return (%s)\n%s", what, d)
 		}
 		if out.Closed {
-			out.Fresh = r.furtherExchange(c, &problem)
+			out.Fresh = r.furtherExchange(c, cs, &problem)
 		}
 	default:
 		if timed(shortWatchdog, func() { c.Close() }) {
